@@ -35,6 +35,8 @@ func init() {
 			"on the planning side a field's name and alias are taken from the same operation field wherever a response field is built, the duplicate check uses the same (name, alias) identity as the construction, fragment fields are de-duplicated by the response key, and the merge path of resolver / @requires calls ends in the response key; every call kind is compiled, and a call is merged by path exactly when its plan carries a response path; " +
 			"the code reachable from DataSource.Load never stores into plan-owned memory (no assignment through plan pointers, no append onto a slice that aliases the plan), so concurrent requests on one cached plan cannot change each other's shape; both consumers of the plan test the list wrapper before the optional-scalar wrapper (a nullable scalar list satisfies both predicates). It does not decide the value-level equality of responses under reformulation.",
 		Mutants: []Mutant{
+			{Name: "root fields leave without popping the field path (seeded change C20-21)", File: "v2/pkg/engine/datasource/grpc_datasource/execution_plan_visitor.go", Rule: "C20-R11", Key: "rpcPlanVisitor.LeaveField/pops-field-path-once",
+				Old: "func (r *rpcPlanVisitor) LeaveField(ref int) {\n\tr.fieldPath = r.fieldPath.RemoveLastItem()\n\tinRootField := r.walker.InRootField()\n", New: "func (r *rpcPlanVisitor) LeaveField(ref int) {\n\tinRootField := r.walker.InRootField()\n\tif !inRootField {\n\t\tr.fieldPath = r.fieldPath.RemoveLastItem()\n\t}\n"},
 			{Name: "enclosing type resolved in the operation document by the gRPC plan visitor", File: "v2/pkg/engine/datasource/grpc_datasource/execution_plan_visitor.go", Rule: "C20-R10", Key: "rpcPlanVisitor.EnterField/Node.NameString#2",
 				Old: "\tfield, err := r.planCtx.buildField(\n\t\tr.walker.EnclosingTypeDefinition.NameString(r.definition),\n\t\tfieldDefRef,", New: "\tfield, err := r.planCtx.buildField(\n\t\tr.walker.EnclosingTypeDefinition.NameString(r.operation),\n\t\tfieldDefRef,"},
 			{Name: "list-position converter loses the bytes arm", File: c20JSONGo, Rule: "C20-R1", Key: "object-vs-list",
@@ -100,6 +102,7 @@ func runC20(r *fw.Run) {
 		r.Error("package grpc_datasource not loaded")
 		return
 	}
+	defer c20LeaveFieldPopsPath(r)
 	r.Rule("C20-R10", "in every gRPC planner visitor a node is looked up only in the document it came from: a definition node (Walker.EnclosingTypeDefinition, TypeDefinitions, a lookup in the definition) is never handed to a method of the operation document, nor the other way round")
 	documentProvenance(r, "C20-R10", []string{"grpcds"}, 11)
 	r.Assume = append(r.Assume,
@@ -1650,4 +1653,79 @@ func c20WrapperOrder(r *fw.Run) {
 		in.Run(nil)
 	}
 	r.Expect("C20-R9", "consumers that test IsOptionalScalar", n, 2)
+}
+
+// c20LeaveFieldPopsPath (R11): both gRPC plan visitors keep the path of the field being planned in a stack (fieldPath):
+// EnterField / enterFieldResolver push the field, LeaveField pops it. The context paths of field resolvers are computed
+// from that stack, so a LeaveField exit that forgets the pop leaves the name of a finished field on it: from the second
+// root field on every resolver path starts with the previous root's name, the resolver calls find nothing and are silently
+// skipped — `{users categories{productCount}}` loses productCount while the reordered query keeps it. Every exit of every
+// LeaveField of a visitor that owns a fieldPath has popped it exactly once (the sibling visitors agree).
+func c20LeaveFieldPopsPath(r *fw.Run) {
+	p := r.Prog
+	r.Rule("C20-R11", "every exit of LeaveField of a gRPC plan visitor that keeps a fieldPath stack has popped the stack exactly once (rpcPlanVisitor and rpcPlanVisitorFederation agree)")
+	n := 0
+	for _, fi := range p.Funcs("grpcds") {
+		if fi.Obj.Name() != "LeaveField" || fi.Decl.Recv == nil {
+			continue
+		}
+		info := fi.Info()
+		recvT := fw.RecvName(recvTypeOrNil(fi.Obj))
+		// does the receiver type own a fieldPath that some method pushes?
+		owns := false
+		for _, m := range p.Funcs("grpcds") {
+			if fw.RecvName(recvTypeOrNil(m.Obj)) != recvT {
+				continue
+			}
+			mi := m.Info()
+			fw.WalkAll(m.Decl.Body, func(nd ast.Node) bool {
+				if as, ok := nd.(*ast.AssignStmt); ok && len(as.Lhs) == 1 && len(as.Rhs) == 1 {
+					if fv, _ := fw.Field(mi, as.Lhs[0]); fv != nil && fv.Name() == "fieldPath" {
+						if c, isCall := ast.Unparen(as.Rhs[0]).(*ast.CallExpr); isCall {
+							if fn := fw.Callee(mi, c); fn != nil && strings.HasPrefix(fn.Name(), "With") {
+								owns = true
+							}
+						}
+					}
+				}
+				return true
+			})
+		}
+		if !owns {
+			continue
+		}
+		ord := 0
+		in := fw.NewInterp(fi)
+		in.H = fw.Hooks{
+			Node: func(nd ast.Node, st *fw.State) {
+				as, ok := nd.(*ast.AssignStmt)
+				if !ok || len(as.Lhs) != 1 || len(as.Rhs) != 1 {
+					return
+				}
+				if fv, _ := fw.Field(info, as.Lhs[0]); fv == nil || fv.Name() != "fieldPath" {
+					return
+				}
+				if c, isCall := ast.Unparen(as.Rhs[0]).(*ast.CallExpr); isCall {
+					if fn := fw.Callee(info, c); fn != nil && fn.Name() == "RemoveLastItem" {
+						st.Inc("popped")
+					}
+				}
+			},
+			Exit: func(ret *ast.ReturnStmt, lit *ast.FuncLit, st *fw.State) {
+				if lit != nil || !in.Final() {
+					return
+				}
+				n++
+				ord++
+				pos := fi.Decl.End()
+				if ret != nil {
+					pos = ret.Pos()
+				}
+				r.Check(st.Get("popped") == fw.Cnt{Min: 1, Max: 1}, "C20-R11", recvT+".LeaveField/pops-field-path-once#"+itoa(ord), p.Pos(pos), "this exit of "+recvT+".LeaveField has popped fieldPath exactly once",
+					"the field leaves without its name being removed from the path stack (or it is removed twice): the context paths of the field resolvers planned afterwards are computed from a stack that still holds finished fields — their calls find nothing at that path and are silently skipped, so the answer depends on the order of the root fields")
+			},
+		}
+		in.Run(nil)
+	}
+	r.Expect("C20-R11", "exits of LeaveField in visitors that own a fieldPath", n, 6)
 }
